@@ -20,7 +20,7 @@ import (
 
 var contextFreeMutants = []string{"height", "parent", "ts-early", "ts-future", "sig-wrong-slot", "sig-garbage",
 	"merkle", "tx-unbalanced", "coinbase-amount", "coinbase-missing", "coinbase-not-first", "coinbase-extra-output", "coinbase-wrong-reward"}
-var contextMutants = []string{"spend-missing", "double-spend-cross", "double-spend-inblock", "immature-coinbase", "locked-vote"}
+var contextMutants = []string{"spend-missing", "double-spend-cross", "double-spend-inblock", "immature-coinbase", "locked-vote", "double-spend-parent"}
 
 // defMutant builds a child of `parent` that violates exactly one rule. Returns "" when the
 // mutation is not applicable at this position.
@@ -128,6 +128,22 @@ func (nc *nodeCase) defMutant(parent, kind string) string {
 		}
 		o := nc.ln.outs[spentOne]
 		txInfos = append(txInfos, nc.ln.buildTx([]string{spentOne}, []outSpec{{'n', o.amount - ledgerFee - 1}}, 0))
+	case "double-spend-parent":
+		// re-spend an output that the PARENT block itself spends: when parent and mutant are attached
+		// by one reorganizeChain call, the spent mark exists only in that call's utxo view
+		var spentOne string
+		for _, ti := range nc.blockTxs[parent] {
+			for _, in := range ti.ins {
+				if o := nc.ln.outs[in]; o != nil && o.amount > ledgerFee+3 && (o.kind == 'n' || o.kind == 'v') {
+					spentOne = in
+				}
+			}
+		}
+		if spentOne == "" {
+			return ""
+		}
+		o := nc.ln.outs[spentOne]
+		txInfos = append(txInfos, nc.ln.buildTx([]string{spentOne}, []outSpec{{'n', o.amount - ledgerFee - 2}}, 0))
 	case "double-spend-inblock":
 		if len(avail) == 0 {
 			return ""
@@ -466,6 +482,70 @@ func genCaseRules(c *Ctx, mode string) {
 		if rng.Intn(3) == 0 {
 			release()
 		}
+	}
+	// batch scenarios: several blocks attached by ONE reorganizeChain call, with a context mutant
+	// inside the batch and (when possible) a valid block on top of it, so that the spend rules
+	// are evaluated on the utxo view the earlier blocks of the same batch left behind
+	for k := 0; k < 2 && !nc.dead; k++ {
+		if rng.Intn(3) == 0 {
+			continue
+		}
+		tipB := validTips[len(validTips)-1]
+		parent := tipB
+		shape := "child-before-parent"
+		if rng.Intn(2) == 0 && tipB != "b0" && nc.delivered[tipB] {
+			// side branch that overtakes the best branch only when its last block arrives
+			if gp := nc.nm.name(nc.nm.blocks[tipB].PreviousBlockHash); nc.nm.blocks[gp] != nil {
+				parent = gp
+				shape = "side-branch-overtakes"
+			}
+		}
+		var txs []*txInfo
+		for try := 0; try < 6 && len(txs) == 0; try++ {
+			txs = nc.randomTxs(parent)
+		}
+		s1 := nc.defBlock(parent, uint64(rng.Intn(2)), byte(3+rng.Intn(3)), txs)
+		if s1 == "" {
+			continue
+		}
+		kinds := []string{"double-spend-parent", "double-spend-parent", "double-spend-cross", "immature-coinbase", "locked-vote", "spend-missing"}
+		kind := kinds[rng.Intn(len(kinds))]
+		m := nc.defMutant(s1, kind)
+		if m == "" {
+			kind = "immature-coinbase"
+			m = nc.defMutant(s1, kind)
+		}
+		if m == "" {
+			c.Count("batch-not-applicable")
+			held = append(held, s1)
+			validTips = append(validTips, s1)
+			continue
+		}
+		c.Count("mutant:" + kind)
+		c.Count("batch:" + shape + ":" + kind)
+		top := ""
+		if nc.nm.blocks[m].Height == nc.nm.blocks[s1].Height+1 {
+			top = nc.defChildOfMutant(m)
+		}
+		if shape == "child-before-parent" {
+			// mutant (and the valid block on top) first, the valid parent last: saveSubBlock connects
+			// them and tryReorganize attaches [s1, m, top] at once
+			send(m)
+			if top != "" {
+				send(top)
+				c.Count("batch-with-valid-top")
+			}
+			send(s1)
+		} else {
+			// in order: s1 is at most as high as the best block, the branch wins with m (or top)
+			send(s1)
+			send(m)
+			if top != "" {
+				send(top)
+				c.Count("batch-with-valid-top")
+			}
+		}
+		validTips = append(validTips, s1)
 	}
 	for len(held) > 0 && !nc.dead {
 		release()
